@@ -6,7 +6,10 @@ R30.1 panic_sites_reach from Server::handle_{goto_definition, hover, document_sy
       baseline-unreviewed).
 R30.2 offsets into the document text are obtained through utils::pos_to_offset or from token locations: inventory of
       str slicing / split_at call sites on the request paths (informational count, frozen floor).
-Offsets staying within the text is a value property: NOT decided.
+R30.3 utils::pos_to_offset decides the width of the line terminator per line: inside the loop over the lines every
+      addition of a terminator width is a constant selected by a test evaluated in that iteration (a width decided once
+      for the whole document is wrong for texts that mix CRLF and LF and yields offsets beyond the text).
+Offsets staying within the text in general is a value property: NOT decided.
 """
 import json
 import os
@@ -39,8 +42,7 @@ def inventory(ctx):
     asserts = {}
     for k, (b, pk, info) in seen.items():
         for kind, cons, line in panic_sites(b):
-            if kind == "debug":
-                continue
+            # debug assertions are part of the inventory here: the language server is commonly run from debug builds
             found.setdefault("%s|%s" % (fn_key(b, facts), cons), []).append((b, line))
         for k2, v in assert_terminators(b).items():
             asserts[k2] = asserts.get(k2, 0) + v
@@ -87,3 +89,48 @@ def check(ctx):
                     (p.endswith("Index::index") and (c.self_ty or "").startswith(("str", "std::string::String")) ):
                 n += 1
     ctx.ok("R30.2", "text-slicing-sites", "%d string slicing call sites on the request paths (counted)" % n, nontrivial=False)
+
+    # ---------------------------------------------------------------- R30.3
+    from .. import cfg
+    from ..dataflow import operand_term
+    from .common import transitive_control_deps, control_dependence_no_errors
+    po = facts.body("parol_ls::utils::pos_to_offset")
+    loops = cfg.natural_loops(po)
+    line_loops = [l for l in loops if any((c.path or "") == "std::iter::Iterator::next" and "Lines" in (c.self_ty or "") and c.bb in l[1]
+                                           for c in po.calls())]
+    if not line_loops:
+        raise AnchorMissing("pos_to_offset: no loop over the lines of the text")
+    h, blocks, backs = line_loops[0]
+    cd = control_dependence_no_errors(po)
+    adds = []
+    for bi, si, p, rv, line, mac in po.assigns():
+        if bi in blocks and rv[0] == "bin" and rv[1].startswith("Add"):
+            a, b2 = operand_term(po, rv[2]), operand_term(po, rv[3])
+            names = [po.local_name(x[1]) for x in (a, b2) if x[0] in ("path", "local")]
+            if "offset" in names:
+                other = b2 if (a[0] in ("path", "local") and po.local_name(a[1]) == "offset") else a
+                adds.append((bi, other, line))
+    bad = []
+    n_term = 0
+    for bi, other, line in adds:
+        if other[0] == "const":
+            # a constant width: must be selected by a test evaluated inside the loop
+            n_term += 1
+            ok = False
+            for a, s, k in transitive_control_deps(po, bi, cd=cd):
+                if a in blocks and k and k[0] == "call" and k[1].bb in blocks:
+                    ok = True
+            if not ok:
+                bad.append((line, "constant width not selected per line"))
+        elif other[0] == "call" and (other[1].path or "").endswith("::len"):
+            continue    # the line's own length
+        elif other[0] in ("path", "local"):
+            defs = [d for d in po.defs(other[1]) if d[0] in ("assign", "call")]
+            if defs and all(d[1] not in blocks for d in defs):
+                bad.append((line, "adds `%s`, which is computed once outside the loop" % (po.local_name(other[1]) or other[1])))
+        elif other[0] == "bin":
+            bad.append((line, "adds a compound width computed from loop-invariant values"))
+    ctx.check(not bad and n_term >= 1, "R30.3", "pos_to_offset|terminator-width-per-line",
+              "inside the line loop the terminator width is a constant chosen by a per-line test (%d additions)" % n_term,
+              "pos_to_offset does not decide the line-terminator width per line (%s): for a text mixing CRLF and LF the offset "
+              "drifts beyond the text and str::split_at panics in hover / code actions" % bad, where(po))
